@@ -17,6 +17,11 @@ package main
 //	                      (`Save()`), the pending WALs are destroyed (`Destroy()`) in that order inside it (the model's
 //	                      `saveList` is one atomic step: overlapping saves serialise)
 //
+//	c08AddUnderListLock / c08RetainUnderListLock / c08IncludesUnderListLock
+//	                      CheckpointList.Add, RetainOnly and IncludesTable touch the list's fields only while holding the
+//	                      mutex that Save holds (so the model's `checkpoint`, `retain` and a neighbour's NeedsTable are
+//	                      atomic with respect to a save in progress)
+//
 // OBSERVED facts (their whole content is what the C08 traces compare on the real code). When the source no longer
 // has the recognised text the fact is reported as a problem with the last good value kept, and
 // tools/gofacts/fallbacks.json names C08 as the correspondence that then establishes (or refutes, with a replay) it:
@@ -247,6 +252,124 @@ func c08SaveShape(file *ast.File) bool {
 	return locks == 2 && doc >= 0 && doc < write && write < destroy && !anyLit
 }
 
+// c08ListLockField returns the mutex field CheckpointList.Save locks first ("mu").
+func c08ListLockField(file *ast.File) string {
+	fn := findFunc(file, "CheckpointList", "Save")
+	if fn == nil || fn.Body == nil || len(fn.Body.List) == 0 || fn.Recv == nil || len(fn.Recv.List[0].Names) != 1 {
+		return ""
+	}
+	es, ok := fn.Body.List[0].(*ast.ExprStmt)
+	if !ok {
+		return ""
+	}
+	c, ok := es.X.(*ast.CallExpr)
+	if !ok {
+		return ""
+	}
+	sel, ok := c.Fun.(*ast.SelectorExpr)
+	if !ok || sel.Sel.Name != "Lock" {
+		return ""
+	}
+	inner, ok := sel.X.(*ast.SelectorExpr)
+	if !ok {
+		return ""
+	}
+	if id, ok := inner.X.(*ast.Ident); !ok || id.Name != fn.Recv.List[0].Names[0].Name {
+		return ""
+	}
+	return inner.Sel.Name
+}
+
+// c08StructFields lists the field names of a struct type declared in the file.
+func c08StructFields(file *ast.File, name string) []string {
+	var out []string
+	ast.Inspect(file, func(x ast.Node) bool {
+		ts, ok := x.(*ast.TypeSpec)
+		if !ok || ts.Name.Name != name {
+			return true
+		}
+		if st, ok := ts.Type.(*ast.StructType); ok {
+			for _, f := range st.Fields.List {
+				for _, n := range f.Names {
+					out = append(out, n.Name)
+				}
+			}
+		}
+		return false
+	})
+	return out
+}
+
+// c08LockedAccess: the method touches the fields of its receiver's struct only between `<recv>.<mu>.Lock()` and the
+// matching Unlock (deferred, or a later plain call) of the list mutex — the one Save holds. Independent of names of
+// locals and of the statement forms in between.
+func c08LockedAccess(file *ast.File, method string) bool {
+	mu := c08ListLockField(file)
+	fn := findFunc(file, "CheckpointList", method)
+	if mu == "" || fn == nil || fn.Body == nil || fn.Recv == nil || len(fn.Recv.List[0].Names) != 1 {
+		return false
+	}
+	recv := fn.Recv.List[0].Names[0].Name
+	fields := map[string]bool{}
+	for _, f := range c08StructFields(file, "CheckpointList") {
+		if f != mu {
+			fields[f] = true
+		}
+	}
+	var lockPos, unlockPos token.Pos
+	deferredUnlock := false
+	isMu := func(e ast.Expr) bool {
+		sel, ok := e.(*ast.SelectorExpr)
+		if !ok || sel.Sel.Name != mu {
+			return false
+		}
+		id, ok := sel.X.(*ast.Ident)
+		return ok && id.Name == recv
+	}
+	deferred := map[*ast.CallExpr]bool{}
+	ast.Inspect(fn.Body, func(x ast.Node) bool {
+		switch v := x.(type) {
+		case *ast.DeferStmt:
+			deferred[v.Call] = true
+		case *ast.CallExpr:
+			if sel, ok := v.Fun.(*ast.SelectorExpr); ok && isMu(sel.X) {
+				switch sel.Sel.Name {
+				case "Lock":
+					if lockPos == 0 {
+						lockPos = v.Pos()
+					}
+				case "Unlock":
+					if deferred[v] {
+						deferredUnlock = true
+					} else if v.Pos() > unlockPos {
+						unlockPos = v.Pos()
+					}
+				}
+			}
+		}
+		return true
+	})
+	if lockPos == 0 || (!deferredUnlock && unlockPos == 0) {
+		return false
+	}
+	ok := true
+	touched := false
+	ast.Inspect(fn.Body, func(x ast.Node) bool {
+		sel, isSel := x.(*ast.SelectorExpr)
+		if !isSel || !fields[sel.Sel.Name] {
+			return true
+		}
+		if id, isID := sel.X.(*ast.Ident); isID && id.Name == recv {
+			touched = true
+			if sel.Pos() < lockPos || (!deferredUnlock && sel.Pos() > unlockPos) {
+				ok = false
+			}
+		}
+		return true
+	})
+	return ok && touched
+}
+
 // c08Observed reports an observed fact: 1 when the text is there, otherwise a problem (last good value kept).
 func c08Observed(fc *facts, name string, found bool, what string) {
 	fc.set(name, 1, found, what)
@@ -270,6 +393,9 @@ func c08Facts(fc *facts) {
 
 	cl := parseFile("dkv/recovery/checkpoint_list.go")
 	fc.set("c08SaveUnderListLock", c08Bool(c08SaveShape(cl)), true, "")
+	fc.set("c08AddUnderListLock", c08Bool(c08LockedAccess(cl, "Add")), true, "")
+	fc.set("c08RetainUnderListLock", c08Bool(c08LockedAccess(cl, "RetainOnly")), true, "")
+	fc.set("c08IncludesUnderListLock", c08Bool(c08LockedAccess(cl, "IncludesTable")), true, "")
 
 	start := c08FnSrc(db, "DB", "Start")
 	c08Observed(fc, "c08StartSeqFromLevels", strings.Contains(start, "db.seqNum = latestCP.Levels.LatestSeqNum"),
